@@ -63,6 +63,9 @@ FN_MODULE = {
     "evaluate_ehrenfest_hessian": "gbasis.evals.stress_tensor",
     "generate_transformation": "gbasis.spherical",
     "real_solid_harmonic": "gbasis.spherical",
+    "expansion_coeff": "gbasis.spherical",
+    "harmonic_norm": "gbasis.spherical",
+    "shift_factor": "gbasis.spherical",
     "factorial2": "gbasis.utils",
     "is_integral_screened": "gbasis.integrals.overlap",
     "parse_nwchem": "gbasis.parsers",
